@@ -22,7 +22,7 @@ import sys
 from typing import Any
 
 _real = {name: getattr(os, name) for name in ("open", "write", "close", "replace", "rename", "unlink", "remove", "truncate", "link", "fsync",
-                                                "fdatasync", "ftruncate", "lseek", "fstat")}
+                                                "fdatasync", "ftruncate", "lseek", "fstat", "sendfile", "copy_file_range") if hasattr(os, name)}
 _real_open = builtins.open
 _real_io_open = io.open
 
@@ -258,6 +258,37 @@ def _os_write(fd, data):
     return _real["write"](fd, data)
 
 
+def _os_sendfile(out_fd, in_fd, offset, count, *a, **kw):
+    """shutil's fast copy path writes with sendfile: an OS-level write like any other."""
+    ctl = CTL
+    if ctl is None:
+        return _real["sendfile"](out_fd, in_fd, offset, count, *a, **kw)
+    act = ctl.gate("WRITE", out_fd, count)
+    if act == "skip":
+        return 0
+    if act == "tear":
+        if ctl.nbytes > 0:
+            _real["sendfile"](out_fd, in_fd, offset, min(count, ctl.nbytes))
+        ctl.dead = True
+        raise Killed("killed inside sendfile")
+    return _real["sendfile"](out_fd, in_fd, offset, count, *a, **kw)
+
+
+def _os_copy_file_range(src, dst, count, *a, **kw):
+    ctl = CTL
+    if ctl is None:
+        return _real["copy_file_range"](src, dst, count, *a, **kw)
+    act = ctl.gate("WRITE", dst, count)
+    if act == "skip":
+        return 0
+    if act == "tear":
+        if ctl.nbytes > 0:
+            _real["copy_file_range"](src, dst, min(count, ctl.nbytes))
+        ctl.dead = True
+        raise Killed("killed inside copy_file_range")
+    return _real["copy_file_range"](src, dst, count, *a, **kw)
+
+
 def _os_fsync(fd):
     ctl = CTL
     if ctl is not None:
@@ -281,6 +312,10 @@ PATCHES = {
     "fsync": _os_fsync,
     "fdatasync": _os_fsync,
 }
+if "sendfile" in _real:
+    PATCHES["sendfile"] = _os_sendfile
+if "copy_file_range" in _real:
+    PATCHES["copy_file_range"] = _os_copy_file_range
 
 
 class active:
